@@ -30,6 +30,7 @@ import (
 	"encoding/json"
 	"fmt"
 	"os"
+	"runtime"
 	"math"
 	"math/big"
 	"sort"
@@ -76,6 +77,7 @@ type hOp struct {
 	In     int      `json:"in,omitempty"` // which of the case's cache instances performs the operation
 	Cx     string   `json:"cx,omitempty"` // ctx form of the call: "" non-Ctx API, bg Background, live (cancelled at the end of the case), cancel (cancelled right after the call returned), dl (deadline 400 ms: gone before a retry is due), pre (cancelled BEFORE the call), mid (deadline that passes while the Exec callback runs)
 	GF     bool     `json:"gf,omitempty"` // conc: all readers start together while GETs are slow and then fail
+	G      int      `json:"g,omitempty"`  // garbage: which undecodable value a foreign writer leaves under the keys
 	CB     string   `json:"cb,omitempty"` // read: what the database callback does if it is reached: dberr (returns a custom error), panic, nest (reads another row through the same connection)
 	SL     int      `json:"sl,omitempty"` // write: if > 0 the row's string field is SL bytes long (255 B .. 1 MiB), built from a pattern
 	Fill   int      `json:"fi,omitempty"` // delcache: that many additional cached keys are named in the same call (10 .. 1000)
@@ -253,6 +255,7 @@ type hRun struct {
 	ctxPre  bool            // that ctx was cancelled before the call
 	ctxMid  bool            // that ctx expires while the Exec callback runs
 	clientFails map[int]int // DELs that failed in the client with DeadlineExceeded (the circuit breaker counts them)
+	inRead  bool            // the commands being absorbed belong to a read (its own DEL of an undecodable entry is not a write's removal)
 	cbMode  string          // what the next reached primary callback does (dberr panic nest)
 	cbNest  int
 	cbFired bool
@@ -565,7 +568,11 @@ func (r *hRun) absorb(fromIndexRead, background bool) (b hBatch, dels []string) 
 				dels = append(dels, fmt.Sprintf("%d|%s|%v", si, strings.Join(e.Keys, ","), e.Failed))
 				if e.Failed {
 					b.delFailed = true
-					if !background {
+					if r.inRead {
+						// a read could not drop an entry it failed to decode: the
+						// statement's retry clause is about removals by writes
+						r.classes["read-del-of-undecodable-entry-failed"] = true
+					} else if !background {
 						// a failed removal: retried from the next tick on
 						for _, k := range e.Keys {
 							r.dirty[k] = true
@@ -638,7 +645,9 @@ func (r *hRun) doRead(what string, id int) {
 	}()
 	cb, fired, nest := r.cbMode, r.cbFired, r.cbNest
 	r.cbMode, r.cbFired = "", false
+	r.inRead = true
 	b, _ := r.absorb(false, false)
+	r.inRead = false
 	calls := r.priCalls[id]
 	want, exists := r.db[id]
 	if fired {
@@ -765,7 +774,9 @@ func (r *hRun) doReadIndex(what string, idx int) {
 	wasInvalid := r.invalid[ik]
 	r.resetCalls()
 	got, err := r.queryRowIndex(idx)
+	r.inRead = true
 	b, _ := r.absorb(true, false)
+	r.inRead = false
 	icalls := r.idxCalls[idx]
 	pcalls := 0
 	for _, n := range r.priCalls {
@@ -1011,6 +1022,43 @@ func (r *hRun) clientDelFailed(keys []string) {
 		}
 	}
 	r.classes["del-failed-in-client-ctx"] = true
+}
+
+// c06Garbage: values that cannot be decoded into a row (valid JSON of another
+// shape, truncated JSON, not JSON); index keys are read into an untyped value,
+// there only text that is not JSON at all is undecodable.
+var c06Garbage = []string{`"another shape"`, `[1,2,3]`, `{"ID":"not a number"}`, `{"ID":1,"Idx":`, `12`, `nul`, `{{`, "\x00\xff"}
+
+// doGarbage: a foreign writer leaves an undecodable value under the keys
+// (written to the server directly, as another program would).
+func (r *hRun) doGarbage(o hOp) {
+	for _, k := range r.resolveKeys(o.Keys) {
+		si := 0
+		if len(r.srvs) > 1 {
+			n, ok := r.keyNode[k]
+			if !ok {
+				r.classes["skipped"] = true
+				continue
+			}
+			si = n
+		}
+		g := o.G
+		if g < 0 {
+			g = -g
+		}
+		val := c06Garbage[g%len(c06Garbage)]
+		if strings.HasPrefix(k, "i") {
+			val = c06Garbage[3+g%(len(c06Garbage)-3)] // truncated or not JSON
+			if val == "12" {
+				val = "{{"
+			}
+		}
+		_ = r.srvs[si].M.Set(k, val)
+		r.srvs[si].M.SetTTL(k, time.Hour)
+		delete(r.ph, k)
+		delete(r.cached, k)
+		r.classes["undecodable-entry"] = true
+	}
 }
 
 func (r *hRun) resolveKeys(ks []string) (keys []string) {
@@ -1285,7 +1333,9 @@ func (r *hRun) doConc(what string, o hOp) {
 	r.lat = 0
 	maxActive := r.maxActive
 	r.mu.Unlock()
+	r.inRead = true
 	b, _ := r.absorb(o.ViaIdx, false)
+	r.inRead = false
 	if gf {
 		for _, s := range r.srvs {
 			s.SetFault("", "")
@@ -1403,6 +1453,9 @@ func c06HistInterp(t *testing.T, c hCase) (v kit.Verdict) {
 		if (in.HasE && in.ENs == 0 && in.E < 1) || (in.HasNF && in.NFNs == 0 && in.NF < 1) {
 			return kit.Verdict{Excluded: true}
 		}
+	}
+	if !cache.C06RunnerAlive() {
+		return kit.Verdict{Fail: fmt.Sprintf(cache.C06RunnerDead, runtime.GOMAXPROCS(0))}
 	}
 	if c06FlightStuck {
 		return kit.Verdict{Excluded: true, Classes: []string{"excluded-after-a-stuck-single-flight"}}
@@ -1544,6 +1597,8 @@ func c06HistInterp(t *testing.T, c hCase) (v kit.Verdict) {
 			case "delrow":
 				o.ID = o.ID % c06NIDs
 				r.doWrite(what, o, true)
+			case "garbage":
+				r.doGarbage(o)
 			case "delcache":
 				r.doDelCache(what, o)
 			case "setcache":
@@ -1726,7 +1781,7 @@ func c06HistGen(rt *rapid.T) hCase {
 		return f
 	}
 	kinds := []string{"read", "read", "read", "read", "readidx", "readidx", "readidx", "write", "write", "write", "write",
-		"delrow", "delcache", "setcache", "adv", "adv", "adv", "conc", "fault", "fault", "idxstale"}
+		"delrow", "delcache", "setcache", "adv", "adv", "adv", "conc", "fault", "fault", "idxstale", "garbage", "gmiss"}
 	nops := rapid.IntRange(5, 40).Draw(rt, "nops")
 	faulty := false
 	churnAt := -1
@@ -1813,6 +1868,29 @@ func c06HistGen(rt *rapid.T) hCase {
 				c.Ops = append(c.Ops, hOp{K: "delcache", Keys: []string{fmt.Sprintf("p%d", id)}})
 			}
 			o = hOp{K: "readidx", Idx: rows[id]}
+		case "garbage":
+			o.G = rapid.IntRange(0, 7).Draw(rt, "garbage")
+			if rapid.Bool().Draw(rt, "primary") {
+				o.Keys = []string{fmt.Sprintf("p%d", pickID())}
+			} else {
+				o.Keys = []string{fmt.Sprintf("i%d", pickIdx())}
+			}
+		case "gmiss":
+			// an undecodable entry under the key of a row that does not exist,
+			// the read's own DEL of it fails, then the same read again: the
+			// not-found result must have been remembered all the same
+			id := rapid.IntRange(0, c06NIDs-1).Draw(rt, "id")
+			if _, ok := rows[id]; ok {
+				c.Ops = append(c.Ops, hOp{K: "delrow", ID: id})
+				delete(rows, id)
+			}
+			node := rapid.IntRange(0, nn-1).Draw(rt, "node")
+			c.Ops = append(c.Ops, hOp{K: "read", ID: id}, // makes the key's node known in a cluster
+				hOp{K: "garbage", Keys: []string{fmt.Sprintf("p%d", id)}, G: rapid.IntRange(0, 7).Draw(rt, "garbage")},
+				hOp{K: "fault", Node: node, Mode: "del", Filt: rapid.SampledFrom([]string{"", "p"}).Draw(rt, "filt")},
+				hOp{K: "read", ID: id}, hOp{K: "read", ID: id})
+			o = hOp{K: "fault", Node: node}
+			faulty = false
 		case "delrow":
 			ids := existing()
 			if len(ids) == 0 {
